@@ -157,7 +157,8 @@ fn run_op(op: &str, n: usize) -> (Result<usize, String>, usize) {
             })
         }
         "nt-ser-escapes" | "turtle-ser-escapes" | "turtle-pretty-ser-escapes" => {
-            let lit = lit_dt(&"\"\\\n\r".repeat(n / 4 + 1), &format!("{XSD}string"));
+            // every escaped character alone, doubled, and in the pairs a serializer might treat as one unit (CR LF, backslash + quote ...)
+            let lit = lit_dt(&"\"\\\n\r\r\n\n\n\"\"\\\\\r\r\\\"".repeat(n / 16 + 1), &format!("{XSD}string"));
             let g = vec![[ex("s", 0), ex("p", 0), lit]];
             let op = op.to_string();
             measured(move || {
